@@ -181,7 +181,8 @@ def dump_contexts(order):
             reg_as = name if d is not None and name in d['reg_names'] else None
             defs.append(dict(reg=name, py=fd.payload.__name__, decl=decl_name, reg_as=reg_as,
                              params=[dict(key=k, name=p.name, decl=declared_alias(fd, p), alias=p.alias or None,
-                                          hidden=isinstance(p.value_type, yaqltypes.HiddenParameterType))
+                                          hidden=isinstance(p.value_type, yaqltypes.HiddenParameterType),
+                                          lazy=isinstance(p.value_type, yaqltypes.LazyParameterType))
                                      for k, p in fd.parameters.items()]))
         out.append(dict(conv=conv, has_convention=ctx.convention is not None, defs=defs))
     return out
